@@ -839,9 +839,9 @@ Section Shaped.
         end
     | SInline c sub =>
         let c' := inline_cond t c in
-        if subtype S tn c' then prefix (PFrag (lower_bytes c')) (flat_map (exp_sel tn c' fs) sub) else []
+        if subtype S tn c' then prefix (PFrag (frag_label c')) (flat_map (exp_sel tn c' fs) sub) else []
     | SSpread n c body =>
-        if subtype S tn c then prefix (PFrag (lower_bytes n)) (flat_map (exp_sel tn c fs) body) else []
+        if subtype S tn c then prefix (PFrag (frag_label n)) (flat_map (exp_sel tn c fs) body) else []
     end.
   Definition exp_sels (tn t : name) (sels : list selection) (fs : list (bytes * rv)) : list (path * leaf) :=
     flat_map (exp_sel tn t fs) sels.
